@@ -28,7 +28,7 @@ def main():
     if not os.path.isdir(SCR):
         os.makedirs(os.path.dirname(SCR), exist_ok=True)
         print(sh('git -C /repo worktree add -f --detach %s HEAD' % SCR).stdout[-300:])
-    sh('git -C %s checkout -q --detach %s && git -C %s checkout -- . && git -C %s clean -fdq -e _build' % (SCR, sh('git -C /repo rev-parse HEAD').stdout.strip(), SCR, SCR))
+    sh('git -C %s reset -q --hard; git -C %s checkout -q --detach %s && git -C %s reset -q --hard && git -C %s clean -fdq -e _build' % (SCR, SCR, sh('git -C /repo rev-parse HEAD').stdout.strip(), SCR, SCR))
     demo = meta.get('demo_cmd') or ''
     shf = os.path.join(out, 'm%s_demo.sh' % k)
     if os.path.exists(shf):
@@ -49,7 +49,7 @@ def main():
     r1 = sh(demo, env=env)
     res['demo_mutant_rc'] = r1.returncode
     res['demo_mutant_output'] = r1.stdout[-400:]
-    sh('git -C %s checkout -- .' % SCR)
+    sh('git -C %s reset -q --hard; git -C %s clean -fdq' % (SCR, SCR))
     print('demo clean rc=%d, mutant rc=%d, tests pass=%s' % (r0.returncode, r1.returncode, res['tests_pass']))
     if r0.returncode != 0 or r1.returncode == 0 or not res['tests_pass']:
         print('NOT CONFIRMED\n', b.stdout[-500:], r0.stdout[-300:]); 
@@ -58,8 +58,10 @@ def main():
         res['confirmed'] = True
     # run the checks on /repo with the patch (or, in lane mode, on the scratch worktree with the patch)
     if LANE_ROOT:
-        sh('rm -rf %s/_build' % SCR)
+        sh('git -C %s reset -q --hard; git -C %s clean -fdq' % (SCR, SCR))
         a = sh('git -C %s apply %s' % (SCR, patch))
+        if a.returncode:
+            print('PATCH DOES NOT APPLY (second time):', a.stdout[-200:]); sys.exit(3)
     else:
         st = sh('git -C /repo status --porcelain --untracked-files=no').stdout.strip()
         if st:
@@ -74,7 +76,7 @@ def main():
             det[c] = {'rc': r.returncode, 'violations': len(v), 'keys': keys[:6]}
             print('  check %s: rc=%d violations=%d %s' % (c, r.returncode, len(v), keys[:3]))
     finally:
-        sh('git -C %s checkout -- .' % (SCR if LANE_ROOT else '/repo'))
+        sh('git -C %s reset -q --hard; git -C %s clean -fdq' % (SCR, SCR)) if LANE_ROOT else sh('git -C /repo checkout -- .')
     # restore evidence files changed by running on a mutated tree
     if not LANE_ROOT:
         sh('git -C %s checkout -- evidence' % ROOT)
